@@ -48,6 +48,12 @@ def expand_minimal_spaces(
         if node["expanded"]:
             return
 
+        # The node is about to gain successors, which invalidates any attractor
+        # data computed while it had none.
+        node["attractor_seeds"] = None
+        node["attractor_candidates"] = None
+        node["attractor_sets"] = None
+
         skip_edges = 0
         for m_trap in all_minimal_traps:
             if is_subspace(m_trap, sd.node_data(node_id)["space"]):
